@@ -415,9 +415,12 @@ class RefDevice:
                     conn.state.setdefault("good_spans", []).append((off, off + len(m)))
                 off += len(m)
         if d.get("dup_late") and resp_pkts:
+            # the device itself re-sends the response later (a device-side timer, not a slow delivery: TCP keeps
+            # order, so a long latency would also hold back everything sent afterwards)
             self._fire("dup_late")
+            loop = conn.net.loop
             for p in resp_pkts:
-                conn.send(p, lat=lat + d["dup_late"])
+                loop.call_later(lat + d["dup_late"], lambda p=p: conn.open and conn.send(p, lat=MIN_LAT))
         if d.get("close") == "after":
             self._fire("close_after_reply" + ("_rst" if d.get("rst") else ""))
             conn.close(rst=bool(d.get("rst")), lat=lat)
